@@ -126,9 +126,14 @@ def check(repo, roots):
     for r in roots:
         if r not in functions:
             diffs.append("root function %s is missing" % r)
+    files.add("dsw/__init__.py")          # what the package exports / wraps at import time concerns every property
     for f in sorted(files):
         if rec["module_level"].get(f) != module_level.get(f):
             diffs.append("module-level code of %s (imports, globals, class bodies) differs" % f)
+    # modules added to (or removed from) the package
+    present = sorted(x for x in os.listdir(os.path.join(repo, "dsw")) if x.endswith(".py")) if os.path.isdir(os.path.join(repo, "dsw")) else []
+    if present != sorted(os.path.basename(x) for x in FILES):
+        diffs.append("the set of modules in dsw/ changed: %s" % ", ".join(present))
     return diffs
 
 
